@@ -27,6 +27,7 @@ RULE = ("histories: connected pair, drawn link (dup/reorder/delay/loss incl. one
         "non-trivial = a copy arriving after the receiver's newest datagram seq advanced by > 32, or a retransmission "
         "arriving after > 256 newer messages, or a retransmission of a message that had already been delivered; "
         "distinct by (kind, datagram lag bucket, message lag bucket, retry mode, history hash).")
+RULE += (" " + "Round-8 addition: in a third of the histories the client's non-blocking socket refuses 1-4 drawn sendto() calls (BlockingIOError, passed on to the application, which carries on).")
 ASSUMPTIONS = [
     "original and copy are < 32767 datagrams of that sender apart (the property's precondition; histories are far shorter)",
     "payload contents are unique per send for sizes >= 4 bytes; shorter payloads are judged with multiset semantics",
